@@ -28,7 +28,7 @@ import (
 func init() {
 	Register("C33", &Info{
 		Run:   runC33,
-		Quick: 5000, Thor: 1000000,
+		Quick: 10000, Thor: 1000000,
 		Rule: "a world = one fingerprint (every parrot by stratum, randomized, generated specs, HelloGolang) and version, whose peer is made hostile in one of two ways: (a) the server's byte stream is corrupted at the transport - bit flips, byte runs overwritten with drawn garbage, truncation, reset, an oversized record header, random records injected - at an offset drawn over the whole server flight and the first application records; (b) the reference server mutates one plaintext handshake message before hashing and encrypting it (ServerHello incl. HelloRetryRequest with cookie, EncryptedExtensions incl. ALPS, Certificate, CompressedCertificate, CertificateVerify, Finished, NewSessionTicket, TLS 1.2 ServerKeyExchange/ServerHelloDone): byte flips, truncation, extension, inner length fields set to extreme values, with the outer length fixed up or not, or a CompressedCertificate whose stream is valid up to the declared length and then goes on decompressing into 48 MB; (c) every fifth world: the reference server completes a genuine handshake and then misbehaves under the negotiated keys - floods of zero-length application_data records (10 .. 150000), KeyUpdate storms with and without update_requested, unexpected handshake messages of drawn types - optionally while the client's own transport writes fail once, fail for good, or block (peer stops reading); the client then keeps using the connection (Read x3, Write, Read, Close); the client runs Handshake and then Read under a 30 s deadline; oracle: no panic in any task, the world neither deadlocks nor hits the step cap and every client call returns by the deadline, and the bytes allocated while the connection runs stay below 6 MB (the largest legitimate message is a 256 kB certificate message); non-trivial = the mutated bytes were consumed by the client; distinct = (fingerprint, hostile mode, target, mutation, offset class)",
 		Assumptions: []string{"mutation-based, not coverage-guided", "the worker process runs with a 32 MB goroutine stack limit (debug.SetMaxStack)", "allocation is measured as runtime.MemStats.TotalAlloc growth of the whole worker process during the world (client, server and harness together)"},
 		Real:        []string{"utls client from /repo"},
@@ -36,7 +36,7 @@ func init() {
 	})
 	Register("C34", &Info{
 		Run:   runC34,
-		Quick: 5000, Thor: 1000000,
+		Quick: 10000, Thor: 1000000,
 		Rule: "a world = the repository's server (TLS 1.0-1.3, optional ECH keys, optional client-certificate request) facing a raw byte-stream client: a genuine ClientHello taken from a parrot / randomized / generated spec (by run index) is mutated (byte flips, truncation, extension, length fields set to extreme values, extensions duplicated or reordered, ECH and PSK bodies damaged) and framed into records with drawn fragmentation; optionally followed or preceded by uTLS-specific plaintext handshake messages (type 8 client EncryptedExtensions, type 25 CompressedCertificate), a second hello, garbage records, or a TLS 1.2 client flight with damaged ClientKeyExchange; every fifth world: a reference client completes a genuine handshake (optionally with ECH, its encoded inner ClientHello rewritten before HPKE sealing: ech_outer_extensions entries missing / out of order / duplicated / naming the ECH extension, or byte mutations) and then misbehaves under the negotiated keys like the hostile server of C33 while the server's transport writes may fail; the server then keeps using the connection; the server runs Handshake and Read under a 30 s deadline; oracle: no panic, no deadlocked world, every server call returns by the deadline, allocation below 6 MB per world; non-trivial = the mutated bytes were consumed by the server; distinct = (source fingerprint, mutation, framing, extra messages)",
 		Assumptions: []string{"the raw byte-stream client attacks only the plaintext part of the client's flight; encrypted messages come from the reference client (frozen fork, sim/refsrv)", "mutation-based, not coverage-guided", "the worker process runs with a 32 MB goroutine stack limit (debug.SetMaxStack)"},
 		Real:        []string{"utls server (tls.Server, ECH server side) from /repo"},
